@@ -621,6 +621,16 @@ func foldBin(x *ssa.BinOp, a, b CVal) CVal {
 		if aok && bok && (an || bn) {
 			return ConstV(constant.MakeBool((an == bn) == (x.Op == token.EQL)))
 		}
+		// two non-nil interface values: different dynamic types are unequal; identical zero-size dynamic types
+		// (struct{} such as binary.bigEndian) have a single value and are equal
+		if a.K == CType && b.K == CType {
+			if !types.Identical(a.T, b.T) {
+				return ConstV(constant.MakeBool(x.Op == token.NEQ))
+			}
+			if st, isS := a.T.Underlying().(*types.Struct); isS && st.NumFields() == 0 {
+				return ConstV(constant.MakeBool(x.Op == token.EQL))
+			}
+		}
 	}
 	if a.K != CConst || b.K != CConst {
 		// absorbing elements
@@ -724,4 +734,103 @@ type ReachedCall struct {
 
 func (rc ReachedCall) String() string {
 	return fmt.Sprintf("%s%v", rc.Call.Call.Value.Name(), rc.Args)
+}
+
+// GlobalInit resolves the load of a package-level variable to the value its package initialiser stores, for
+// variables the module never writes elsewhere (that they are not written elsewhere is C17's globals-immutable
+// obligation): a constant, or an interface holding a constant / a zero-size value.
+func GlobalInit(v ssa.Value) (CVal, bool) {
+	ld, ok := v.(*ssa.UnOp)
+	if !ok || ld.Op != token.MUL {
+		return CVal{}, false
+	}
+	g, ok := ld.X.(*ssa.Global)
+	if !ok || g.Pkg == nil {
+		return CVal{}, false
+	}
+	init := g.Pkg.Func("init")
+	if init == nil {
+		return CVal{}, false
+	}
+	var val ssa.Value
+	n := 0
+	for _, b := range init.Blocks {
+		for _, in := range b.Instrs {
+			if st, isSt := in.(*ssa.Store); isSt && st.Addr == ssa.Value(g) {
+				val = st.Val
+				n++
+			}
+		}
+	}
+	if n != 1 {
+		return CVal{}, false
+	}
+	switch x := val.(type) {
+	case *ssa.Const:
+		return constOf(x), true
+	case *ssa.MakeInterface:
+		if c, isC := x.X.(*ssa.Const); isC {
+			_ = c
+			return DynV(x.X.Type()), true
+		}
+		if st, isS := x.X.Type().Underlying().(*types.Struct); isS && st.NumFields() == 0 {
+			return DynV(x.X.Type()), true
+		}
+		if inner, isLd := x.X.(*ssa.UnOp); isLd && inner.Op == token.MUL {
+			if _, isG := inner.X.(*ssa.Global); isG {
+				return DynV(x.X.Type()), true
+			}
+		}
+	}
+	return CVal{}, false
+}
+
+// FirstCall returns the first call satisfying pred in dominator-tree preorder of fn, descending into statically
+// resolved callees of the same package (in instruction order) before continuing: "the first word the reader decodes".
+func FirstCall(fn *ssa.Function, pred func(*ssa.Call) bool, depth int) *ssa.Call {
+	if fn == nil || len(fn.Blocks) == 0 || depth > 4 {
+		return nil
+	}
+	for _, b := range fn.DomPreorder() {
+		for _, in := range b.Instrs {
+			c, ok := in.(*ssa.Call)
+			if !ok {
+				continue
+			}
+			if pred(c) {
+				return c
+			}
+			if cal := c.Call.StaticCallee(); cal != nil && cal != fn && cal.Pkg == fn.Pkg && len(cal.Blocks) > 0 {
+				if r := FirstCall(cal, pred, depth+1); r != nil {
+					return r
+				}
+			}
+		}
+	}
+	return nil
+}
+
+// WalkReached calls f for every instruction in a reachable block of the activation and, recursively, of the
+// activations evaluated for its calls (the final ones of the fixpoint).
+func WalkReached(top *CEResult, f func(act *CEResult, in ssa.Instruction)) {
+	seen := map[*CEResult]bool{}
+	var walk func(r *CEResult)
+	walk = func(r *CEResult) {
+		if r == nil || seen[r] {
+			return
+		}
+		seen[r] = true
+		for _, b := range r.Fn.Blocks {
+			if !r.Reach[b] {
+				continue
+			}
+			for _, in := range b.Instrs {
+				f(r, in)
+				if c, ok := in.(*ssa.Call); ok {
+					walk(r.Sub[c])
+				}
+			}
+		}
+	}
+	walk(top)
 }
